@@ -76,7 +76,8 @@ public:
     size_t wait(size_t delta = 1, size_t slack = 0)
     {
         std::unique_lock<std::mutex> lock(mutex_);
-        while (value_ < delta + slack)
+        // compare without forming delta + slack, which may wrap around
+        while (value_ < delta || value_ - delta < slack)
             cv_.wait(lock);
         value_ -= delta;
         return value_;
@@ -88,7 +89,8 @@ public:
     bool try_acquire(size_t delta = 1, size_t slack = 0)
     {
         std::unique_lock<std::mutex> lock(mutex_);
-        if (value_ < delta + slack)
+        // compare without forming delta + slack, which may wrap around
+        if (value_ < delta || value_ - delta < slack)
             return false;
         value_ -= delta;
         return true;
